@@ -3,7 +3,7 @@
 CONSTANTS
   Alphabet = {120, 58, 35, 32, 9, 13, 10}
   MaxLen = 6
-  ZoneWhatIf = TRUE
+  ZoneWhatIf = FALSE
   Emit = TRUE
   NoIndentRule = FALSE
   AllowEndLF = FALSE
